@@ -122,7 +122,11 @@ pub fn c14_c15_pool(m: &mut Mon, ctx: &StepCtx, stats: &mut Stats, out: &mut Vec
                 }
             }
         } else if !ctx.abort_injected && !ctx.out.map(|o| o.err_kind == Some(ErrKind::Chain) && o.err_at == Some(0)).unwrap_or(false) {
-            if n >= 1 {
+            // whole units accrued according to the ledger (balance x delivered per bSei, fed from
+            // index rises and payouts): does not depend on the AccruedRewards answer
+            let nl: u128 = m.accr.get(&signer).map(|e| (*e / one256()).to_string().parse::<u128>().unwrap_or(u128::MAX)).unwrap_or(0);
+            if n >= 1 || nl >= 1 {
+                let n = n.max(nl);
                 let why = ctx.out.and_then(|o| o.err.clone()).unwrap_or_default();
                 // a recipient the chain's address validation rejects is a legitimate failure
                 if !why.contains("address") && !why.contains("Invalid input") {
